@@ -65,7 +65,7 @@ theorem crash_prefix_exact (H : Hist) {B : Nat} (S : Nat) (hB : 1 < B) (ops : Li
 
 /-- non-vacuity: a schedule with headers ahead, three blocks in two flushes and a GC commit; every one of
 its batch prefixes is covered (there are 3 batches). -/
-example : ((run ⟨fun _ => 2, fun _ => [(0, 1)], fun h => [(h, some h)], fun _ => [0], List.length, 0⟩ 2000
+example : ((run ⟨fun _ => 2, fun _ => [(0, 1)], fun h => [(h, some h)], fun _ => [0], List.length, 0, false⟩ 2000
     [.headers 2, .block, .flush, .block, .block, .flush, .gc 1 (fun _ v => v), .block]).2.length = 3) := by decide
 
 /-- **continue_same_roots**: whatever node the recovery produced (any node satisfying `Inv`), feeding it
@@ -582,6 +582,124 @@ theorem gc_removes_needed_header_page :
     (gcRun Hgc 2 { mtb := 1, gcp := 1 } { n := gcWitnessNode } 0 (fun _ v => v)).2.length = 1 ∧
     errOf (recover Hgc 2 1 (foldBatches (gcRun Hgc 2 { mtb := 1, gcp := 1 } { n := gcWitnessNode } 0 (fun _ v => v)).2 gcWitnessNode.db)) = none := by
   decide
+
+
+
+theorem flush_cache_empty (H : Hist) (B : Nat) (n : Node) : (step H B n .flush).1.cache = [] := by
+  simp only [step]
+  split
+  · rename_i h; simpa using h
+  · rfl
+
+/-- a node that was stopped (Close flushes what is left) has an empty write cache. -/
+theorem stopped_cache_empty (H : Hist) (B : Nat) (ops : List Op) : (run H B (ops ++ [.flush])).1.cache = [] := by
+  show (runFrom H B (fresh H) (ops ++ [.flush])).1.cache = []
+  rw [runFrom_append]
+  simp only [runFrom]
+  exact flush_cache_empty H B _
+
+
+/-- **reset_resumable_stopped**: `reset_resumable` without the empty-cache hypothesis - the node a reset is run on is a
+STOPPED node, and stopping flushes (`Blockchain.Close` -> `persist`): for the node after any schedule followed by that
+flush the hypothesis holds by construction. -/
+theorem reset_resumable_stopped (H : Hist) {B S : Nat} (hB : 1 < B) (ops : List Op) (t : Nat) (bs : List Batch) (n' : Node)
+    (hreset : reset H B S (run H B (ops ++ [.flush])).1 t = .ok (bs, n')) (hbs : bs ≠ []) :
+    let n := (run H B (ops ++ [.flush])).1
+    let b1 := ofWrites [(Key.syncPoint, some (Val.ptr t)), marker stJumpStarted]
+    let d1 := applyBatch b1 n.db
+    ∃ (b2 : List Batch) (d2 : Db) (x r : Nat) (p0 : Bool),
+      stageBlocks H S t n.height d1 = .ok (b2, d2) ∧ d2 = foldBatches b2 d1 ∧
+      let c3 := stageCopy t p0 d2
+      let c4 := stageHeaders B t n.hdrHeight p0
+      let c5 := stageMpt t r
+      let c6 := stageGc p0
+      let d3 := applyBatch c3 d2
+      let d4 := applyBatch c4 d3
+      let d5 := applyBatch c5 d4
+      let d6 := applyBatch c6 d5
+      bs = b1 :: b2 ++ [c3, c4, c5, c6, stageDone] ∧ n'.db = applyBatch stageDone d6 ∧
+      (∀ j, j < b2.length → recover H B S (foldBatches (b2.take j) d1) = .ok n') ∧
+      recover H B S d2 = .ok n' ∧ recover H B S d3 = .ok n' ∧
+      recover H B S d4 = .ok n' ∧ recover H B S d5 = .ok n' ∧ recover H B S d6 = .ok n' ∧
+      recover H B S n'.db = .ok n' :=
+  reset_resumable H hB (ops ++ [.flush]) (stopped_cache_empty H B ops) t bs n' hreset hbs
+
+
+
+/-- **crash_then_continue_gc** — the property end to end, no hypothesis on any node left: for every chain content,
+configuration (positive MaxTraceableBlocks), schedule (headers, blocks, flushes, GC commits and runs, blocks that
+wait during a flush) and every prefix `k` of its batches, reopening gives a node `n'` not above the running one, and
+continuing `n'` (with whatever GC bookkeeping it restarts with) under ANY further schedule stores the canonical state
+root at every height it reaches. `continue_same_roots_gc`'s hypotheses (`GInv`, empty write cache) are discharged by
+`crash_prefix_consistent_gc`'s conclusion. -/
+theorem crash_then_continue_gc (H : Hist) {B : Nat} (S : Nat) (cfg : GcCfg) (hB : 1 < B) (hm : 0 < cfg.mtb)
+    (ops : List GOp) (k : Nat) (hk : k ≤ (grun H B cfg ops).2.length) (ops' : List GOp) :
+    ∃ n', recover H B S (foldBatches ((grun H B cfg ops).2.take k) Db.empty) = .ok n' ∧
+      n'.height ≤ (grun H B cfg ops).1.n.height ∧
+      ∀ gl lr tm i, i ≤ (grunFrom H B cfg { n := n', gcLast := gl, lru := lr, times := tm } ops').1.n.height →
+        (grunFrom H B cfg { n := n', gcLast := gl, lru := lr, times := tm } ops').1.n.view (Key.root i) =
+          some (Val.rootv (H.hashOf (itemsAt H i))) := by
+  have h := gprefix_ok cfg hB hm (gstate_fresh H hB) ops k hk
+  rcases h with he | ⟨m, fb, fp, m1, m2, m3, m4, _⟩
+  · have he' : foldBatches ((grun H B cfg ops).2.take k) Db.empty = Db.empty := he
+    rw [he']
+    refine ⟨fresh H, recover_empty H B S, Nat.zero_le _, ?_⟩
+    intro gl lr tm i hi
+    have hs : GState H B { n := fresh H, gcLast := gl, lru := lr, times := tm } :=
+      ⟨⟨0, 0, ginv_of_inv (inv_fresh H hB)⟩, Or.inl rfl⟩
+    obtain ⟨_, _, h⟩ := (gstate_grunFrom cfg hB hm hs ops').run
+    exact h.rt i hi
+  · have hm1 : m.db = foldBatches ((grun H B cfg ops).2.take k) Db.empty := m1
+    rw [← hm1]
+    refine ⟨m, recover_of_ginv m3 m2, m4, ?_⟩
+    intro gl lr tm i hi
+    exact continue_same_roots_gc H cfg hB hm { n := m, gcLast := gl, lru := lr, times := tm } fb fp m3 m2 ops' i hi
+
+/-- `flush_during_wait_atomic` on every reachable node: the hypothesis `height ≤ hdrHeight` is an invariant. -/
+theorem flush_during_wait_atomic_reachable (H : Hist) {B : Nat} (cfg : GcCfg) (hB : 1 < B) (hm : 0 < cfg.mtb) (ops : List GOp) :
+    let n := (grun H B cfg ops).1.n
+    (blockWait H B n).2 = (if (n.cache ++ waitHeaderWrites B n).isEmpty then none else some (ofWrites (n.cache ++ waitHeaderWrites B n))) ∧
+    (∀ p ∈ waitHeaderWrites B n, ¬ BlockKey n.pfx (n.height + 1) p) ∧
+    (step H B (blockWait H B n).1 .flush).1 = (step H B (step H B n .block).1 .flush).1 := by
+  intro n
+  obtain ⟨_, _, h⟩ := (gstate_grunFrom cfg hB hm (gstate_fresh H hB) ops).run
+  exact flush_during_wait_atomic H B n h.le
+
+
+/-! ### Reset on a RemoveUntraceableBlocks node (refused since b08d698) -/
+
+
+/-- **reset_refused_unchanged**: a fresh Reset(t) below the current height on a RemoveUntraceableBlocks node is
+refused - `reset` returns the error and nothing else: no batch is issued and there is no new node, the caller keeps `n`
+(backend and write cache) exactly as it was. -/
+theorem reset_refused_unchanged (H : Hist) (B S : Nat) (n : Node) (t : Nat) (hr : H.rub = true) (ht : t < n.height) :
+    reset H B S n t = .error .refused := by
+  unfold reset
+  rw [if_neg (by omega), if_neg (by omega), if_pos ⟨hr, ht⟩]
+
+/-- **reset_on_rub_is_headers_only**: whatever reset starts on such a node (writes its first marker batch) has the
+node's own height as target - it only drops headers that are ahead of the blocks. So the only recorded reset stage a
+restart can find on such a node (`recover` resumes a stage without the check, as the code does for stage ≠ none)
+belongs to a headers-only reset, which deactivates no MPT node; its resumption is `reset_resumable`. -/
+theorem reset_on_rub_is_headers_only (H : Hist) (B S : Nat) (n n' : Node) (t : Nat) (bs : List Batch) (hr : H.rub = true)
+    (h : reset H B S n t = .ok (bs, n')) : t = n.height := by
+  unfold reset at h
+  split at h
+  · simp at h
+  · split at h
+    · rename_i h2; exact h2.1
+    · split at h
+      · simp at h
+      · rename_i h1 _ h3
+        have : ¬ t < n.height := fun c => h3 ⟨hr, c⟩
+        omega
+
+/-- non-vacuity: on the RemoveUntraceableBlocks variant of `Hw` the reset of the 2-block node to 1 is refused, the
+headers-only reset of a node with headers 3..4 ahead runs its 7 batches. -/
+example : errOf (reset { Hw with rub := true } 2000 200000 (run { Hw with rub := true } 2000 [.block, .block, .flush]).1 1) = some .refused ∧
+    (match reset { Hw with rub := true } 2000 200000 (run { Hw with rub := true } 2000 [.block, .block, .headers 4, .flush]).1 2 with
+     | .ok (bs, _) => decide (bs.length = 7) | .error _ => false) = true := by decide
+
 
 /-! ## 5. a failed flush (MemCachedStore.persist's error branch, Model/PersistFlush.lean) -/
 
